@@ -21,6 +21,7 @@ pub fn spec() -> PropSpec {
         assumptions: &["the letter C (category descending) is implemented but not named by the property and is not generated", "blank keys may appear anywhere in the order"],
         workers: 16,
         also_nochk: false,
+        fuzz_target: None,
         quick_budget_s: 900,
         thorough_budget_s: 3600,
         min_nontrivial_quick: 10_000,
